@@ -1210,6 +1210,7 @@ async fn load_targets(
             max_targets_size,
             delegations,
             datastore,
+            &[],
         )
         .await?;
     }
@@ -1222,6 +1223,7 @@ async fn load_targets(
 
 // Follow the paths of delegations starting with the top level targets.json delegation
 #[async_recursion]
+#[allow(clippy::too_many_arguments)]
 async fn load_delegations(
     transport: &dyn Transport,
     snapshot: &Signed<Snapshot>,
@@ -1230,10 +1232,21 @@ async fn load_delegations(
     max_targets_size: u64,
     delegation: &mut Delegations,
     datastore: &Datastore,
+    // The names of the delegated roles on the path from the top-level targets role down to the
+    // role whose delegations are being loaded.
+    ancestors: &[String],
 ) -> Result<()> {
     let mut delegated_roles: HashMap<String, Option<Signed<crate::schema::Targets>>> =
         HashMap::new();
     for delegated_role in &delegation.roles {
+        // A role that delegates to itself, directly or through other roles, would make us fetch
+        // and load the same chain of roles without end.
+        ensure!(
+            !ancestors.contains(&delegated_role.name),
+            error::DelegationCycleSnafu {
+                name: delegated_role.name.clone(),
+            }
+        );
         // find the role file metadata
         let role_meta = snapshot
             .signed
@@ -1302,6 +1315,8 @@ async fn load_delegations(
                 })?;
         if let Some(targets) = &mut delegated_role.targets {
             if let Some(delegations) = &mut targets.signed.delegations {
+                let mut path = ancestors.to_vec();
+                path.push(delegated_role.name.clone());
                 load_delegations(
                     transport,
                     snapshot,
@@ -1310,6 +1325,7 @@ async fn load_delegations(
                     max_targets_size,
                     delegations,
                     datastore,
+                    &path,
                 )
                 .await?;
             }
